@@ -60,7 +60,13 @@ def compute_national_checksum(country_code: str, components: dict[Component, str
     if algo is None:
         return ""
 
-    return algo.compute([components[key] for key in algo.accepts])
+    try:
+        return algo.compute([components[key] for key in algo.accepts])
+    except exceptions.SchwiftyException:
+        raise
+    except (ValueError, KeyError) as e:
+        # The algorithms expect the characters the country's structure allows in each component.
+        raise exceptions.InvalidStructure(f"Invalid characters in BBAN components: {e}") from e
 
 
 class BBAN(common.Base):
